@@ -153,7 +153,10 @@ def issues_from_validation(ctx, res, label):
         elif evname in ("Add", "Delete", "Create", "Switch"):
             sig = "CalFile:%s:%s:ok%s:%s" % (evname, field, ev.get("ok"),
                                              ev.get("err"))
-            props = {"C16"}
+            # a container whose add / replace / delete does not follow the
+            # slot model cannot satisfy Load(Save(s)) = Compact(s) either
+            # (duplicate names, lost or stale calibrations): C07 as well
+            props = {"C16", "C07"}
             if ev.get("ok") == 0:
                 props.add("C11")
             what = ("%s: %s not explained by CalFile at field '%s' (case %s); "
